@@ -162,10 +162,12 @@ class MultiVector:
         """ Return the shape of the .values() attribute of this multivector. """
         if hasattr(self._values, 'shape'):
             return self._values.shape
-        elif len(self._values) and hasattr(self._values[0], 'shape'):
-            return len(self), *self._values[0].shape
-        else:
-            return len(self),
+        # Some of the coefficients can be plain numbers: they are the same for every element.
+        shapes = [value.shape for value in self._values if hasattr(value, 'shape')]
+        if shapes:
+            import numpy as np
+            return len(self), *np.broadcast_shapes(*shapes)
+        return len(self),
 
     @cached_property
     def grades(self):
@@ -302,7 +304,8 @@ class MultiVector:
 
         values = self.values()
         if isinstance(values, (tuple, list)):
-            return_values = values.__class__(value[item] for value in values)
+            # Coefficients that are plain numbers are the same for every element.
+            return_values = values.__class__(value[item] if hasattr(value, '__getitem__') else value for value in values)
         else:
             return_values = values[(slice(None), *item)]
         return self.__class__.fromkeysvalues(self.algebra, keys=self.keys(), values=return_values)
